@@ -423,14 +423,12 @@ Proof. induction a as [|x a IH]; simpl; [reflexivity|]. rewrite IH. lia. Qed.
 Lemma count61_repeat k : count61 (repeat 61 k) = k.
 Proof. induction k; simpl; lia. Qed.
 
-Lemma count_padding_rev_le l : (count_padding_rev l <= count61 l)%nat.
-Proof. induction l as [|c r IH]; simpl; [lia|]. destruct (c =? 61); lia. Qed.
-
-Lemma count61_rev l : count61 (rev l) = count61 l.
-Proof. induction l as [|c r IH]; simpl; [reflexivity|]. rewrite count61_app, IH. simpl. lia. Qed.
-
 Lemma count_padding_le l : (count_padding l <= count61 l)%nat.
-Proof. unfold count_padding. rewrite <- (count61_rev l). apply count_padding_rev_le. Qed.
+Proof.
+  unfold count_padding. induction l as [|c r IH]; simpl; [lia|].
+  destruct (count_padding_aux r) as [n all]. simpl in IH.
+  destruct all; simpl; destruct (c =? 61); simpl; lia.
+Qed.
 
 Lemma tbl_not_61 s : 0 <= s < 64 -> (tbl s =? 61) = false.
 Proof. intros H. destruct (sextet_ok s H) as (_ & _ & E & _). lia. Qed.
